@@ -891,9 +891,12 @@ func (x *Exec) checkCallbackLit(st *State, c *Contract, q, pn string, cb *Contra
 		cargs = append(cargs, v)
 		probe.names[fmt.Sprintf("arg%d", i)] = v
 	}
+	// old(...) in a callback precondition refers to the callee's entry state, which is the call site's
+	x.oldStack = append(x.oldStack, st.clone())
 	for _, r := range cb.Requires {
 		x.assume(probe, x.evalClauseIn(probe, r, at.Pos(), ""))
 	}
+	x.oldStack = x.oldStack[:len(x.oldStack)-1]
 	probe.names = saved
 	pre := probe.clone()
 	savedPrefix, savedProps := x.oblPrefix, x.oblProps
